@@ -165,6 +165,19 @@ fn c20(seed: u64) {
         check(s3, "PrivateKey clone");
         check(s4, "PrivateKey clone of clone");
         cases += 4;
+        // overwrite paths
+        {
+            let mut a = PrivateKey::try_from(&raw[..]).unwrap();
+            let b = PrivateKey::generate();
+            let wa = allocmon::watch(a.as_bytes().as_ptr(), 32);
+            a.clone_from(&b);
+            check(wa, "PrivateKey overwritten by clone_from");
+            let wa2 = allocmon::watch(a.as_bytes().as_ptr(), 32);
+            a = b.clone();
+            check(wa2, "PrivateKey overwritten by assignment");
+            drop(a);
+            cases += 2;
+        }
         // PayloadKey in a Box (watched) and in a slot dropped in place
         let pk = Box::new(PayloadKey::new(&raw));
         let sb = allocmon::watch(pk.as_bytes().as_ptr(), 32);
